@@ -243,9 +243,61 @@ def solve_rotation(env, topo):
     return obs + [Ob("optimum-is-also-the-optimum-of-the-rotated-tissue", same)]
 
 
+def assembly(env, topo, what):
+    """the assembled system of a rotated / reflected tissue: same unknowns, same junctions, coefficient pairs turned."""
+    import forsys as fs
+    import forsys.fmatrix as fmx
+    spec = catalogue(topo, n_spoke=3, n_border=2)
+    internal = spec.internal_lines()
+    b1 = tissue.build(spec, fs)
+    b2 = tissue.build(spec, fs)
+    f1 = fs.frames.Frame(0, b1.vertices, b1.edges, b1.cells, time=0)
+    f2 = fs.frames.Frame(0, b2.vertices, b2.edges, b2.cells, time=0)
+    vs = VersorStub(env, fs, {"a": b1, "b": b2})
+    if what == "rotation":
+        cc, ss = env.unit("R")
+        lin = lambda u: (cc * u[0] - ss * u[1], ss * u[0] + cc * u[1])
+    else:
+        lin = lambda u: (-u[0], u[1])
+    base = vs.u
+
+    def u(ln, pn, fk=None):
+        v = base(ln, pn, "a")
+        if fk == "b":
+            w = lin(v)
+            a = np.empty(2, dtype=object if env.mode == "sym" else float)
+            a[0], a[1] = w[0], w[1]
+            return a
+        return v
+    vs.u = u
+    try:
+        m1 = fmx.ForceMatrix(f1, "none", "none", {}, {}, angle_limit=np.inf)
+        m2 = fmx.ForceMatrix(f2, "none", "none", {}, {}, angle_limit=np.inf)
+    finally:
+        vs.restore()
+    region = c02.filter_deviates(env, spec, internal, lambda ln, pn: u(ln, pn, "a"), None) | \
+        c02.filter_deviates(env, spec, internal, lambda ln, pn: u(ln, pn, "b"), None)
+    rows1 = {b1.point_of[v]: r for v, r in m1.map_vid_to_row.items()}
+    rows2 = {b2.point_of[v]: r for v, r in m2.map_vid_to_row.items()}
+    cols1 = [tissue.line_of_big_edge(b1, e)[0] for e in m1.big_edges_to_use]
+    cols2 = [tissue.line_of_big_edge(b2, e)[0] for e in m2.big_edges_to_use]
+    same_shape = (sorted(rows1) == sorted(rows2)) and cols1 == cols2 and m1.matrix.shape == m2.matrix.shape
+    ok = env.true() & same_shape
+    if same_shape:
+        for pn, r1 in rows1.items():
+            r2 = rows2[pn]
+            for ci in range(len(cols1)):
+                w = lin((m1.matrix[r1, ci], m1.matrix[r1 + 1, ci]))
+                ok = ok & env.eq(m2.matrix[r2, ci], w[0]) & env.eq(m2.matrix[r2 + 1, ci], w[1])
+    return [Ob(f"assembled-coefficient-pairs-follow-the-{what}", ok, finding="zero_tangent_component", region=region)]
+
+
 def jobs(tier):
     js = []
     quick = tier == "quick"
+    for topo in (("T3",) if quick else ("T3", "T4", "K3-n0", "K3")):
+        for what in ("rotation", "reflection"):
+            js.append(Job(f"assembly-{what}-{topo}", "c06:assembly", dict(topo=topo, what=what), budget_s=900, max_paths=5000, weight=3))
     for n in ((3,) if quick else (3, 5)):
         for ccw in (True, False):
             for what in ("translation", "scaling", "rotation", "reflection"):
